@@ -50,6 +50,7 @@ type concResult struct {
 	stamps   []int64 // stamp of every journal entry
 	retained []retained
 	preload  int // number of ops main executed before spawning clients
+	initial  *Image // the disk the run started from (RecoverFirst), nil = empty
 }
 
 func (cr *concResult) retain(b []byte, what string) {
@@ -89,7 +90,31 @@ func isBusy(err error) bool { return err != nil && strings.Contains(err.Error(),
 func concExec(t *testing.T, p *Plan, co concOpts) *concResult {
 	cr := &concResult{closedBy: -1}
 	keys := p.KeyBytes()
-	e := NewEnv(p.Cfg, keys, nil, co.journal)
+	var initial *Image
+	if p.Cfg.RecoverFirst && len(p.Epochs0()) > 0 {
+		// an earlier session: the preload, then the process dies (no Close)
+		e0 := NewEnv(p.Cfg, keys, nil, false)
+		e0.NoRetain = true
+		if err := e0.Open(); err != nil {
+			cr.v = violf("open-failed", "Open of the earlier session: %v", err)
+			cr.env = e0
+			return cr
+		}
+		for i, op := range p.Epochs0() {
+			if op.K != "put" && op.K != "del" && op.K != "sync" {
+				continue
+			}
+			if v := e0.Do(op); v != nil {
+				v.Detail = fmt.Sprintf("earlier session op#%d %s: %s", i, op, v.Detail)
+				cr.v = v
+				cr.env = e0
+				return cr
+			}
+		}
+		initial = e0.FS.Snapshot()
+		cr.initial = initial
+	}
+	e := NewEnv(p.Cfg, keys, initial, co.journal)
 	e.NoRetain = true
 	cr.env = e
 	var sim *sched.Sim
@@ -226,9 +251,32 @@ func concExec(t *testing.T, p *Plan, co concOpts) *concResult {
 				fail(violf("open-failed", "Open: %v", err))
 				return
 			}
-			for _, op := range p.Epochs0() {
-				doOp(0, op, nil)
-				cr.preload++
+			if initial != nil {
+				if !e.lastOpenRecovered {
+					fail(violf("unclean-shutdown-not-recovered", "Open on the image of the crashed earlier session did not run recovery"))
+					return
+				}
+				e.Probes["run_started_with_recovery"]++
+				// the earlier session's writes are part of the history: completed before anything else
+				// (negative stamps: they returned before the first event of this run, the recovering Open included)
+				n := int64(len(p.Epochs0()))
+				for i, op := range p.Epochs0() {
+					if op.K != "put" && op.K != "del" {
+						continue
+					}
+					ev := &HistEv{Task: 0, Op: op, STask: sim.Current().ID, Inv: -2 * (n - int64(i)) - 1}
+					if op.K == "put" {
+						ev.Val = MakeValue(0, op.ID, op.Size)
+					}
+					ev.Ret = ev.Inv + 1
+					record(ev)
+					cr.preload++
+				}
+			} else {
+				for _, op := range p.Epochs0() {
+					doOp(0, op, nil)
+					cr.preload++
+				}
 			}
 			var clients []*sched.Task
 			for ti := range p.Tasks {
